@@ -30,6 +30,7 @@ import (
 	"math/rand"
 	"net/http"
 	"os"
+	"regexp"
 	"sort"
 	"strings"
 	"sync"
@@ -130,6 +131,7 @@ type world struct {
 	ptext   string
 	topo    string
 	fileTag string
+	cond    func() bool // what else the current operation waits for (tables of the acting node)
 }
 
 var nodeNames = []string{"A", "B", "C"}
@@ -527,12 +529,15 @@ func (w *world) signature() string {
 	return sb.String()
 }
 
-// settle waits until the expected effects are visible (nm more queued messages than `before`, Init of
-// node retn returned) or the limit passed, then until nothing moved for a short while.
-func (w *world) settle(before, nm int, retn string, limit time.Duration) (late bool) {
+// settle waits until the expected effects are visible (at least hm queued messages, Init of node retn
+// returned, the tables of the acting node as the scenario says) or the limit passed, then until nothing moved for a short while.
+func (w *world) settle(hm int, retn string, limit time.Duration) (late bool) {
 	deadline := time.Now().Add(limit)
 	for {
-		ok := len(w.hold.List()) >= before+nm
+		ok := len(w.hold.List()) >= hm
+		if ok && w.cond != nil {
+			ok = w.cond()
+		}
 		if retn != "" {
 			s := atomic.LoadInt32(&w.nodes[retn].init)
 			ok = ok && s != 1
@@ -544,7 +549,7 @@ func (w *world) settle(before, nm int, retn string, limit time.Duration) (late b
 			late = true
 			break
 		}
-		time.Sleep(500 * time.Microsecond)
+		time.Sleep(2 * time.Millisecond)
 	}
 	// stable window
 	last := w.signature()
@@ -560,21 +565,20 @@ func (w *world) settle(before, nm int, retn string, limit time.Duration) (late b
 	return late
 }
 
+var stackFn = regexp.MustCompile(`pkg/(\w+)\.(?:\(\*?\w+\)\.)?(\w+)(?:\.func\d+)?\(`)
+
+// firstLines condenses a panic text with stack to "message <- innermost function <- caller ..." (repository functions only).
 func firstLines(s string, n int) string {
 	lines := strings.Split(s, "\n")
-	var keep []string
-	for _, l := range lines {
-		l = strings.TrimSpace(l)
-		if l == "" {
-			continue
-		}
-		if strings.Contains(l, "chunkinfo.") || len(keep) == 0 {
-			if i := strings.Index(l, "("); i > 0 && strings.Contains(l, "chunkinfo.") {
-				l = l[:i]
+	keep := []string{strings.TrimSpace(lines[0])}
+	for _, l := range lines[1:] {
+		if m := stackFn.FindStringSubmatch(l); m != nil && m[1] != "swb" {
+			fn := m[1] + "." + m[2]
+			if keep[len(keep)-1] != fn {
+				keep = append(keep, fn)
 			}
-			keep = append(keep, l)
 		}
-		if len(keep) >= n {
+		if len(keep) > n {
 			break
 		}
 	}
@@ -664,7 +668,13 @@ func (w *world) run(sc kit.Scenario) (evs []kit.Ev, err error) {
 		evs = append(evs, ev)
 		return nil
 	}
-	if err := emit(kit.Ev{"op": "reset", "topo": w.topo, "file": w.fileTag, "nd": len(w.data)}); err != nil {
+	mal := false
+	for _, op := range sc.Ops {
+		if kit.Str(op, "op") == "inject" {
+			mal = true
+		}
+	}
+	if err := emit(kit.Ev{"op": "reset", "topo": w.topo, "file": w.fileTag, "nd": len(w.data), "mal": mal}); err != nil {
 		return nil, err
 	}
 	for _, op := range sc.Ops {
@@ -678,9 +688,27 @@ func (w *world) run(sc kit.Scenario) (evs []kit.Ev, err error) {
 				ev[k] = v
 			}
 		}
-		nm := kit.Int(op, "nm")
+		hm := kit.Int(op, "hm")
 		retn := kit.Str(op, "ret")
-		before := len(w.hold.List())
+		w.cond = nil
+		if x := w.nodes[kit.Str(op, "wn")]; x != nil && !kit.Bool(op, "async") && name != "park" {
+			wpyr, wown, wdkey, whasq := kit.Bool(op, "wpyr"), kit.Int(op, "wown"), kit.Bool(op, "wdkey"), kit.Bool(op, "whasq")
+			w.cond = func() bool {
+				d := x.n.CI.VerifDump(w.root)
+				own := -1
+				if v, ok := d.Server[x.n.Addr.String()]; ok {
+					own = 0
+					for _, b := range bitsOf(v.B, v.Len) {
+						own += b
+					}
+				}
+				if kit.Str(op, "k") == "presp" && !whasq {
+					// the FindChunkInfo loop may go round at once (a tick already buffered): the queue may exist already
+					return d.Pyramid == wpyr && own == wown && d.DiscoverKey == wdkey
+				}
+				return d.Pyramid == wpyr && own == wown && d.DiscoverKey == wdkey && (d.Queue != nil) == whasq
+			}
+		}
 		var wn *wnode
 		if n := kit.Str(op, "n"); n != "" {
 			wn = w.nodes[n]
@@ -691,10 +719,10 @@ func (w *world) run(sc kit.Scenario) (evs []kit.Ev, err error) {
 		switch name {
 		case "init":
 			w.startInit(wn)
-			ev["late"] = w.settle(before, nm, retn, 4*time.Second)
+			ev["late"] = w.settle(hm, retn, 4*time.Second)
 		case "tick":
 			// the FindChunkInfo loop of n comes round (1 s ticker): nothing to do but wait for its effect
-			ev["late"] = w.settle(before, nm, retn, 4*time.Second)
+			ev["late"] = w.settle(hm, retn, 4*time.Second)
 		case "deliver", "dup", "park":
 			id, ok := w.findHeld(op)
 			if !ok {
@@ -719,6 +747,7 @@ func (w *world) run(sc kit.Scenario) (evs []kit.Ev, err error) {
 				case <-time.After(4 * time.Second):
 				}
 				ev["parked"] = parked
+				w.settle(hm, retn, 2*time.Second)
 				break
 			}
 			if !kit.Bool(op, "blk") {
@@ -728,7 +757,7 @@ func (w *world) run(sc kit.Scenario) (evs []kit.Ev, err error) {
 					ev["late"] = true
 				}
 			}
-			if w.settle(before-1, nm, retn, 4*time.Second) {
+			if w.settle(hm, retn, 4*time.Second) {
 				ev["late"] = true
 			}
 		case "drop":
@@ -740,7 +769,7 @@ func (w *world) run(sc kit.Scenario) (evs []kit.Ev, err error) {
 			if err := w.hold.Drop(id); err != nil {
 				return nil, err
 			}
-			ev["late"] = w.settle(before-1, nm, retn, 4*time.Second)
+			ev["late"] = w.settle(hm, retn, 4*time.Second)
 		case "delfile", "deldisc":
 			call := func() int {
 				if name == "deldisc" {
@@ -775,7 +804,7 @@ func (w *world) run(sc kit.Scenario) (evs []kit.Ev, err error) {
 				ev["code"] = 0
 			} else {
 				ev["code"] = call()
-				ev["late"] = w.settle(before, nm, retn, 3*time.Second)
+				ev["late"] = w.settle(hm, retn, 3*time.Second)
 			}
 		case "cancel":
 			wn.n.CI.CancelFindChunkInfo(w.root)
@@ -802,7 +831,7 @@ func (w *world) run(sc kit.Scenario) (evs []kit.Ev, err error) {
 				}
 			}
 			w.async = nil
-			if w.settle(before, nm, retn, 3*time.Second) {
+			if w.settle(hm, retn, 3*time.Second) {
 				ev["late"] = true
 			}
 		case "timeout":
@@ -811,33 +840,37 @@ func (w *world) run(sc kit.Scenario) (evs []kit.Ev, err error) {
 				return nil, fmt.Errorf("timeout: unknown overlay %q", kit.Str(op, "o"))
 			}
 			ev["armed"] = wn.n.CI.VerifAgeTrigger(w.root, o, 40)
-			p0, err := w.projNode(wn)
-			if err != nil {
-				return nil, err
+			sig := func() string {
+				d := wn.n.CI.VerifDump(w.root)
+				return fmt.Sprint(d.Queue != nil, d.Queue, d.Triggers, atomic.LoadInt32(&wn.init))
 			}
-			s0 := fmt.Sprint(p0["hasq"], p0["un"], p0["ing"], p0["ed"], p0["trig"], p0["init"])
+			qsig := func() string {
+				d := wn.n.CI.VerifDump(w.root)
+				if d.Queue == nil {
+					return fmt.Sprint("none", d.Triggers, atomic.LoadInt32(&wn.init))
+				}
+				return fmt.Sprint(d.Queue.UnPull, d.Queue.Pulling, d.Queue.Pulled, d.Triggers, atomic.LoadInt32(&wn.init))
+			}
+			_ = sig
+			s0 := qsig()
 			fired := false
 			deadline := time.Now().Add(6500 * time.Millisecond)
 			for time.Now().Before(deadline) {
-				p1, err := w.projNode(wn)
-				if err != nil {
-					return nil, err
-				}
-				if fmt.Sprint(p1["hasq"], p1["un"], p1["ing"], p1["ed"], p1["trig"], p1["init"]) != s0 {
+				if qsig() != s0 {
 					fired = true
 					break
 				}
-				time.Sleep(3 * time.Millisecond)
+				time.Sleep(10 * time.Millisecond)
 			}
 			ev["fired"] = fired
-			if w.settle(before, nm, retn, 2*time.Second) {
+			if w.settle(hm, retn, 2*time.Second) {
 				ev["late"] = true
 			}
 		case "inject":
 			if err := w.inject(wn, kit.Str(op, "shape"), ev); err != nil {
 				return nil, err
 			}
-			w.settle(before, nm, retn, 2*time.Second)
+			w.settle(hm, retn, 2*time.Second)
 		default:
 			return nil, fmt.Errorf("unknown op %q", name)
 		}
@@ -986,13 +1019,19 @@ func runAll(scs []kit.Scenario, out *kit.Out) error {
 					return
 				}
 				rng := rand.New(rand.NewSource(seed*1000003 + int64(scs[i].Scn)))
+				t0 := time.Now()
 				w, err := newWorld(scs[i].Par, rng, seed, logger)
 				if err != nil {
 					errs[i] = err
 					continue
 				}
+				t1 := time.Now()
 				results[i], errs[i] = w.run(scs[i])
+				t2 := time.Now()
 				w.close()
+				if os.Getenv("VERIF_DISCTIME") != "" {
+					fmt.Fprintf(os.Stderr, "scn %d: setup %v run %v close %v\n", scs[i].Scn, t1.Sub(t0), t2.Sub(t1), time.Since(t2))
+				}
 			}
 		}()
 	}
@@ -1017,7 +1056,13 @@ func main() {
 	if !supervise.IsChild() {
 		kit.Main(func(scs []kit.Scenario, out *kit.Out) error {
 			return supervise.Run(scs, out, func(sc kit.Scenario) kit.Ev {
-				return kit.Ev{"topo": kit.Str(sc.Par, "topo"), "file": kit.Str(sc.Par, "file"), "nd": 0, "died": true,
+				mal := false
+				for _, op := range sc.Ops {
+					if kit.Str(op, "op") == "inject" {
+						mal = true
+					}
+				}
+				return kit.Ev{"topo": kit.Str(sc.Par, "topo"), "file": kit.Str(sc.Par, "file"), "nd": 0, "died": true, "mal": mal,
 					"crash": "", "ptext": "", "held": []interface{}{}}
 			})
 		})
